@@ -172,6 +172,21 @@ class Fn:
                             if not src[1] and src[0] in mutref:
                                 mutref[l] = mutref[src[0]]
                                 changed = True
+            # raw-pointer aliases (`vec![..]` lowers to a write through a pointer obtained from the fresh box):
+            # p = cast(copy q.<ptr fields>)  =>  a store through (*p) is a definition of q
+            palias = {}
+            for l, ds in list(D.items()):
+                for d in ds:
+                    if d[0] == '=' and not d[3][1] and d[4][0] == 'cast' and d[4][2][0] in ('c', 'm') and l < len(self.locals) and self.locals[l][0].startswith('*'):
+                        src = d[4][2][1]
+                        palias[l] = palias.get(src[0], src[0])
+            if palias:
+                for bi, b in enumerate(self.blocks):
+                    if b.get('cleanup'):
+                        continue
+                    for si, st in enumerate(b['s']):
+                        if st[0] == '=' and st[1][0] in palias and st[1][1] and st[1][1][0] == '*':
+                            D[palias[st[1][0]]].append(('=', bi, si, [palias[st[1][0]], []], st[2]))
             # inside a closure: locals that hold a captured `&mut` upvar (`_t = copy (_1.i)`); writes through them are
             # writes to upvar i
             if self.kind == 'closure':
